@@ -146,7 +146,8 @@ def kindStr : Kind → String
   | .pd => "pd" | .grad => "grad" | .div => "div" | .lap => "lap"
 
 /-- `cfg act=adjoint|derivative kind= method= pad= c=` → the instance the code returns:
-`ok neg=0|1 kind= method= pad= c=`, or `err:value`. -/
+`ok linear=<of the instance> neg=0|1 kind= method= pad= c= rlinear=<of the result>`, or
+`err:value linear=…`. -/
 def doCfg (l : Line) : Option String := do
   let act ← l.get? "act"
   let kind ← l.get? "kind" >>= kindOf
@@ -154,13 +155,15 @@ def doCfg (l : Line) : Option String := do
   let p ← pad? l "pad"
   let c ← l.crat? "c"
   let o : Op CRat := ⟨kind, m, p, c, false⟩
+  let lin (r : Op CRat) := if r.isLinear Gen.FiniteDiff.affineAware then 1 else 0
   let show' (r : Op CRat) :=
-    s!"ok neg={if r.neg then 1 else 0} kind={kindStr r.kind} method={methodStr r.method} pad={padStr r.pad} c={r.c.str}"
+    s!"ok linear={lin o} neg={if r.neg then 1 else 0} kind={kindStr r.kind} method={methodStr r.method} pad={padStr r.pad} c={r.c.str} rlinear={lin r}"
   match act with
   | "adjoint" =>
-    match o.adjoint Gen.FiniteDiff.adjMethod Gen.FiniteDiff.adjPad with
+    match o.adjoint Gen.FiniteDiff.affineAware Gen.FiniteDiff.adjGuarded
+        Gen.FiniteDiff.adjMethod Gen.FiniteDiff.adjPad with
     | some r => some (show' r)
-    | none => some "err:value"
+    | none => some s!"err:value linear={lin o}"
   | "derivative" => some (show' o.derivative)
   | _ => none
 
